@@ -175,6 +175,13 @@ def run(tier='quick'):
                           'expression), which the order-sensitive rules above (R11, the transaction scope) take for granted',
                    floor=100)
     c14.immediate_statements(prog, eff, chk, R12)
+    R13 = chk.rule('R13', 'what update() / create_track() store is stored whatever rows exist: every UPDATE of a 1.x secondary '
+                          'table (MetaData, MetaDataInteger, PerformanceData) is preceded in its function by an INSERT into '
+                          'that table or followed by a test of rows_modified() - a plain UPDATE of a missing '
+                          'PerformanceData row (track imported but never analysed) loses the performance data silently',
+                   floor=4)
+    from . import extra
+    extra.updates_have_rows(prog, cg, eff, chk, R13)
     return chk.finish('statement-level analysis of the 1.x storage layer and the 2.x track table; value-flow '
                       'interpretation (sa/valueflow.py) of snapshot(), update() and create_track() of both '
                       'generations with every repository callee inlined down to the SQL statements, once per '
